@@ -413,6 +413,19 @@ pub fn mt_app() -> sylvia::multitest::App<MtApp> {
     sylvia::multitest::App::new(app)
 }
 
+/// `5` = 5utok, `0` = nothing, `5utok+0refund` = the coins as written (zero amounts included)
+pub fn coins_multi(spec: &str) -> Vec<Coin> {
+    if spec.chars().all(|c| c.is_ascii_digit()) {
+        return coins_of(spec);
+    }
+    spec.split('+')
+        .map(|c| {
+            let i = c.find(|ch: char| !ch.is_ascii_digit()).unwrap_or(c.len());
+            Coin::new(c[..i].parse::<u128>().unwrap_or(0), &c[i..])
+        })
+        .collect()
+}
+
 pub fn coins_of(amount: &str) -> Vec<Coin> {
     match amount.parse::<u128>() {
         Ok(0) | Err(_) => vec![],
